@@ -88,6 +88,7 @@ func (e *Enc) encodeCall(c *ssa.CallCommon, instr ssa.Instruction, pos token.Pos
 	if c.IsInvoke() {
 		args = append(args, e.valOf(c.Value))
 		argTypes = append(argTypes, c.Value.Type())
+		e.assume(Ne(e.coerce(args[0]), IntLit(0))) // method call on a nil interface: nil dereference class, assumed away
 	}
 	for _, a := range c.Args {
 		args = append(args, e.valOf(a))
@@ -236,7 +237,7 @@ func (e *Enc) applyCall(name, kind string, fn *ssa.Function, fc *FuncContract, c
 	}
 	e.reassumeInvariants()
 	for _, r := range results {
-		e.assumeLoadedInv(r.T, r.Typ)
+		e.assumeResultInv(r.T, r.Typ, nowAtCall)
 	}
 	return results
 }
@@ -663,7 +664,12 @@ func (e *Enc) loopHeader(b *ssa.BasicBlock, li *loopInfo, preds []*ssa.BasicBloc
 	for _, k := range e.expandKeys(li.mod) {
 		e.havocKey(e.cur, k)
 	}
+	var mls []*ssa.Alloc
 	for a := range li.modLocals {
+		mls = append(mls, a)
+	}
+	sort.Slice(mls, func(i, j int) bool { return e.p.cvKeyName(mls[i]) < e.p.cvKeyName(mls[j]) })
+	for _, a := range mls {
 		if old, ok := e.cur.locals[a]; ok {
 			e.cur.locals[a] = e.fresh("L_"+a.Comment, old.Sort)
 		} else {
@@ -896,8 +902,9 @@ func (e *Enc) checkPost(results []Val) {
 // ---------- struct invariants ----------
 
 type invObj struct {
-	t   Term
-	typ types.Type // struct type
+	t     Term
+	typ   types.Type // struct type
+	since Term       // call results: also valid when born at or after this time
 }
 
 func (e *Enc) structInv(t types.Type) *TypeInv {
@@ -929,8 +936,33 @@ func (e *Enc) assumeLoadedInv(v Term, t types.Type) {
 			return
 		}
 	}
-	e.invObjs = append(e.invObjs, invObj{v, pt.Elem()})
+	e.invObjs = append(e.invObjs, invObj{t: v, typ: pt.Elem()})
 	e.assumeInvOf(v, pt.Elem(), ti)
+}
+
+// assumeResultInv: an object handed back by a callee satisfies its invariant unless it is one
+// this function allocated itself before the call (and has not completed yet).
+func (e *Enc) assumeResultInv(v Term, t types.Type, nowAtCall Term) {
+	if t == nil {
+		return
+	}
+	pt, ok := t.Underlying().(*types.Pointer)
+	if !ok {
+		return
+	}
+	ti := e.structInv(pt.Elem())
+	if ti == nil || len(ti.Clauses) == 0 {
+		return
+	}
+	env := &Env{e: e, vars: map[string]TV{"self": {T: v, Typ: t}}, state: e.cur, old: e.entry, now0: e.now0}
+	for _, cl := range ti.Clauses {
+		tt, err := env.Eval(cl.Expr)
+		if err != nil {
+			continue
+		}
+		e.assume(Implies(e.notMine(v, pt.Elem()), tt.T))
+	}
+	e.invObjs = append(e.invObjs, invObj{t: v, typ: pt.Elem()})
 }
 
 func (e *Enc) assumeInvOf(v Term, st types.Type, ti *TypeInv) {
@@ -942,13 +974,34 @@ func (e *Enc) assumeInvOf(v Term, st types.Type, ti *TypeInv) {
 			continue
 		}
 		// objects allocated in this function establish the invariant at return, not before
-		e.assume(Implies(And(Ne(v, IntLit(0)), Lt(Birth(v), e.now0)), t.T))
+		e.assume(Implies(e.notMine(v, st), t.T))
 	}
+}
+
+// notMine: v is a non-nil object that this function did not allocate itself.
+func (e *Enc) notMine(v Term, st types.Type) Term {
+	cs := []Term{Ne(v, IntLit(0))}
+	for _, a := range e.allocs {
+		if types.Identical(a.typ, st) {
+			cs = append(cs, Ne(v, a.ref))
+		}
+	}
+	return And(cs...)
 }
 
 func (e *Enc) reassumeInvariants() {
 	for _, o := range e.invObjs {
 		if ti := e.structInv(o.typ); ti != nil {
+			if o.since.S != "" {
+				env := &Env{e: e, vars: map[string]TV{"self": {T: o.t, Typ: types.NewPointer(o.typ)}}, state: e.cur, old: e.entry, now0: e.now0}
+				for _, cl := range ti.Clauses {
+					tt, err := env.Eval(cl.Expr)
+					if err == nil {
+						e.assume(Implies(And(Ne(o.t, IntLit(0)), Or(Lt(Birth(o.t), e.now0), Ge(Birth(o.t), o.since))), tt.T))
+					}
+				}
+				continue
+			}
 			e.assumeInvOf(o.t, o.typ, ti)
 		}
 	}
@@ -1046,7 +1099,6 @@ func (e *Enc) frameObligationGuarded(in ssa.Instruction, kind, key string, base 
 	}
 	parts := strings.Split(key, "|")
 	var goal Term
-	e.declareFun("perexec", []Sort{SInt}, SBool)
 	fresh := Ge(Birth(base), e.now0)
 	switch parts[0] {
 	case "F", "S":
